@@ -44,4 +44,9 @@ Section PathApiProof.
 
   Theorem p_last_node_is_end (p : list edge) (e : edge) : p_last_node (p ++ [e]) = Some (edst e).
   Proof. unfold p_last_node, p_last_edge. rewrite rev_app_distr. reflexivity. Qed.
+
+  (* first_node is the node the path starts at: the first element of iter_nodes, i.e. the source of the first edge *)
+  Theorem p_first_node_is_start (p : list edge) (e : edge) :
+    p_first_node (e :: p) = Some (esrc e) /\ hd_error (p_iter_nodes (e :: p)) = p_first_node (e :: p).
+  Proof. split; reflexivity. Qed.
 End PathApiProof.
